@@ -407,6 +407,40 @@ Theorem C14_stats_check_exact : forall mem nbin c rows,
    /\ forall i, 0 <= i < nbin -> Forall2 Meets (nth (Z.to_nat i) rows []) (row_at true (qcols_of c) (mem i))).
 Proof. exact stats_check_exact. Qed.
 
+(* ================================================================== round 6: tie and residual items *)
+(* The control skeleton that harness/props/c14_translate.py translates out of util.py on every run
+   (keyword order, histogram's default bin size and its nbin override, the three sources of rev,
+   self.clear(), the edge expressions, the key tests of calc_stats, the single-member and merge
+   thresholds, every exception class) determines the model's functions. *)
+Theorem C14_skeleton_is_the_model :
+  (forall h bs nb k, resolve_sk model_skel h bs nb k = resolve h bs nb k)
+  /\ (forall c rv, dorev_sk model_skel c rv = dorev c rv)
+  /\ (forall dmin bs nhist, edges_sk model_skel dmin bs nhist = edges dmin bs nhist)
+  /\ (forall p o cl, obj_call p (sk_clear_first model_skel) o cl = obj_call p true o cl)
+  /\ (forall hist rev low high, Z.of_nat (length hist) < sk_merge_min model_skel ->
+        merge_last hist rev low high = (hist, rev, low, high))
+  /\ (forall v, Z.of_nat (length v) = sk_single_size model_skel ->
+        exists a, v = [a] /\ ublock v = map (interp_single a 0%Q) single_u_table)
+  /\ (forall p h c rv lo hi bs nb k merge t, resolve h bs nb k = CNone -> same_len c = true ->
+        limits (c_x c) (argsort (c_x c)) lo hi = Ok t ->
+        binner_api p h c rv lo hi bs nb k merge = Err (sk_none_error model_skel))
+  /\ (forall p c lo hi k merge, same_len c = false -> binner_num p c lo hi k merge = Err (fst (sk_len_errors model_skel)))
+  /\ (forall p c d, d_hist d = None -> calc_stats_dict p c d = Err (sk_no_hist_error model_skel)).
+Proof. exact skeleton_is_the_model. Qed.
+
+(* the edge checker is exact, like the statistics checker *)
+Theorem C14_edges_check_exact : forall dmin bsize nbin es,
+  edges_check dmin bsize nbin es = true <-> edges_ok dmin bsize nbin es.
+Proof. exact edges_check_exact. Qed.
+
+(* option path rev=: statistics and reverse indices exist exactly when rev is asked for or y / weights
+   were given; otherwise only hist and edges; one row and one edge triple per bin *)
+Theorem C14_binner_shape : forall p c rv lo hi m b,
+  binner p c rv lo hi m = Ok b ->
+  length (b_edges b) = length (b_hist b)
+  /\ (if dorev c rv then length (b_rows b) = length (b_hist b) else b_rows b = [] /\ b_rev b = []).
+Proof. exact binner_shape. Qed.
+
 (* non-vacuity of the new statements: finite data with a sane bin specification; one input of
    every rejection class; a history with a failing call in it *)
 Example C14_nonvacuous_deepening :
